@@ -4,6 +4,7 @@ on a works that has been used).  After every operation: current input, treated w
 solids, the stormwater tank and every arc record and neighbour state."""
 import contextlib
 import io
+import random
 from fractions import Fraction as F
 
 import common as C
@@ -52,7 +53,15 @@ def gen_case(r, maxops):
             ops.append(("end",))
         elif ops:
             ops.append(("override", gen_params(r, adds)))
-    c["ops"] = ops or [("calc",)]
+    # what the works answers to a check in the states only a history reaches: a stormwater tank above its (lowered)
+    # capacity, effluent parked in it because the outfall was blocked
+    rq = random.Random(r.random())
+    out = []
+    for op in ops:
+        out.append(op)
+        if (op[0] == "override" and rq.random() < 0.8) or (op[0] in ("make", "push") and rq.random() < 0.3):
+            out.append(("pushcheck", None if rq.random() < 0.5 else G.rand_vqip(rq, part.na, part.nn)))
+    c["ops"] = out or [("calc",)]
     return c
 
 
@@ -244,3 +253,59 @@ def expr(c):
 
 K.FAMILIES["wtw"] = (gen_case, run_impl, expr)
 K.add_imports("Distrib", "Kinds", "Wtw")
+
+
+def monitor_nonneg(rep, pid, n):
+    """C06 on the works themselves: after every operation of fresh histories no reply, no store and no account of a
+    WWTW / FWTW is negative (exact runs)"""
+    from exnum import install_exact
+    r = C.rng("mon_wtw")
+    stats = {"cases": 0, "ops": 0, "violations": 0}
+    def wellformed(q):
+        # solids = influent - effluent - liquor must stay non-negative: constant x exponent^(20 - T) + liquor multiplier <= 1
+        # (temperatures here are >= 2: with exponents up to 1.001 the factor stays below 1.02)
+        q["expo"] = [min(e, F(1001, 1000)) for e in q["expo"]]
+        q["lm"] = [(x if a * F(102, 100) + x <= 1 else F(0)) for a, x in zip(q["const"], q["lm"])]
+        if q["lmvol"] == 0:
+            q["lm"] = [F(0) for _ in q["lm"]]          # (liquor that carries mass carries water)
+    for ci in range(n):
+        c = gen_case(r, 10)
+        wellformed(c["p"])
+        for op in c["ops"]:
+            if op[0] == "override":
+                wellformed(op[1])
+        install_exact()
+        G.set_partition(c["adds"], c["nons"])
+        try:
+            C.arm(20)
+            R = Run(c)
+            for i, op in enumerate(c["ops"]):
+                try:
+                    rv = R.do(op)
+                except ZeroDivisionError:
+                    break
+                stats["ops"] += 1
+                h = R.hub
+                seen = {"reply to " + op[0]: rv} if rv is not None else {}
+                for nm in ("current_input", "treated", "liquor", "solids", "total_deficit", "total_pulled", "unpushed_sludge"):
+                    if hasattr(h, nm):
+                        seen[nm] = getattr(h, nm)
+                t = getattr(h, "stormwater_tank", None) or getattr(h, "service_reservoir_tank", None)
+                seen["tank"] = t.storage
+                neg = [(nm, k, v[k]) for nm, v in seen.items() for k in ["volume"] + list(c["adds"]) if frac(v[k]) < 0]
+                if neg:
+                    stats["violations"] += 1
+                    if stats["violations"] <= 3:
+                        c2 = dict(c)
+                        c2["ops"] = c["ops"][:i + 1]
+                        rep.violation("counterexample", f"{pid} monitor [{c['cls']}]: negative after {op[0]}: " + ", ".join(f"{nm}[{k}] = {v}" for nm, k, v in neg[:3]),
+                                      {"family": "wtw", "case": K.case_json(c2)}, True)
+                    break
+            stats["cases"] += 1
+            rep.add_eval(("mon_wtw", ci), nontrivial=len(c["ops"]) >= 3)
+        except C.TooSlow:
+            pass
+        finally:
+            C.disarm()
+            G.reset_partition()
+    rep.monitor[f"{pid}_works"] = stats
